@@ -95,10 +95,15 @@ type c18World struct {
 	triedUnknown bool
 }
 
+var c18Dual bool // the two resources are two served versions of one resource (same group, same plural)
+
 func newC18World(nsubs int, tworesources bool) *c18World {
 	vtime.Reset()
-	b := world.NewBase(5*time.Minute, kit.Kinds...)
+	b := world.NewBase(5*time.Minute, append(append([]*sim.Kind{}, kit.Kinds...), kit.Dual1, kit.Dual2)...)
 	x := &c18World{b: b, kinds: []*sim.Kind{kit.Leaf, kit.Other}}
+	if c18Dual {
+		x.kinds = []*sim.Kind{kit.Dual1, kit.Dual2}
+	}
 	x.subs = make([]*c18Sub, nsubs)
 	x.res = make([]int, nsubs)
 	if tworesources {
@@ -120,7 +125,7 @@ func (x *c18World) bad(key, format string, a ...interface{}) {
 	x.findings = append(x.findings, mc.Finding{Key: "C18:" + key, Msg: fmt.Sprintf("after %v: ", x.hist) + fmt.Sprintf(format, a...)})
 }
 
-func resKey(k *sim.Kind) string { return k.Group + "|" + k.Resource }
+func resKey(k *sim.Kind) string { return sim.ResKey(k) }
 
 // enabled operations in the current state.
 func (x *c18World) ops() []string {
@@ -437,7 +442,9 @@ func TestVerifC18(t *testing.T) {
 	for _, cfg := range []struct {
 		subs int
 		two  bool
-	}{{2, false}, {3, true}} {
+		dual bool
+	}{{2, false, false}, {3, true, false}, {2, true, true}} {
+		c18Dual = cfg.dual
 		ml := maxLen
 		if cfg.subs == 3 {
 			ml = maxLen - 1
@@ -458,7 +465,7 @@ func TestVerifC18(t *testing.T) {
 				}
 			}
 			idx++
-			if !r.Guard(kit.M{"subscribers": cfg.subs, "ops": prefix}) {
+			if !r.Guard(kit.M{"subscribers": cfg.subs, "two-versions": cfg.dual, "ops": prefix}) {
 				return // this sequence aborted the process before: recorded, not expanded
 			}
 			// execute the prefix on a fresh world
@@ -471,7 +478,7 @@ func TestVerifC18(t *testing.T) {
 				r.Transitions += len(prefix)
 				r.Outcome(strings.Split(prefix[len(prefix)-1], ":")[0])
 				for _, f := range x.findings {
-					r.Violate(f.Key, f.Msg, kit.M{"subscribers": cfg.subs, "ops": prefix})
+					r.Violate(f.Key, f.Msg, kit.M{"subscribers": cfg.subs, "two-versions": cfg.dual, "ops": prefix})
 				}
 				if idx%4001 == 0 {
 					r.Sample(kit.M{"subscribers": cfg.subs, "ops": prefix})
@@ -489,6 +496,7 @@ func TestVerifC18(t *testing.T) {
 		}
 		rec(nil)
 	}
+	c18Dual = false
 	r.States = r.Evaluations
 }
 
